@@ -5,6 +5,7 @@ import (
 	"encoding/json"
 	"fmt"
 	"math"
+	"math/big"
 	"strconv"
 	"strings"
 
@@ -224,10 +225,9 @@ func (exec *Executor) execMethodInteger(
 	case json.Number:
 		integer, err = val.Int64()
 		if err != nil {
-			var f float64
-			f, err = val.Float64()
-			if err == nil {
-				integer = int64(math.Round(f))
+			var ok bool
+			if integer, ok = roundJSONNumber(val); ok {
+				err = nil
 			}
 		}
 	case string:
@@ -247,6 +247,44 @@ func (exec *Executor) execMethodInteger(
 	}
 
 	return exec.executeNextItem(ctx, node, nil, integer, found)
+}
+
+// roundJSONNumber rounds a json.Number that is not a plain int64 literal (it
+// has a fraction or an exponent, or it is out of range) half away from zero.
+// It returns false if the result does not fit in an int64. The conversion is
+// exact: going through a float64 rounds integers beyond 2^53, accepts
+// -9223372036854775809 as math.MinInt64, rejects 9223372036854775807.4 and
+// turns 0.4999999999999999999 into 1.
+func roundJSONNumber(val json.Number) (int64, bool) {
+	// Use the nearest double only to settle the magnitudes for which exact
+	// arithmetic is pointless (and, for huge exponents, unaffordable).
+	approx, err := val.Float64()
+	switch {
+	case err != nil || math.Abs(approx) > 1e19:
+		return 0, false
+	case math.Abs(approx) < 0.25:
+		return 0, true
+	}
+
+	exact, ok := new(big.Rat).SetString(val.String())
+	if !ok {
+		return 0, false
+	}
+
+	half := big.NewRat(1, 2)
+	if exact.Sign() < 0 {
+		exact.Sub(exact, half)
+	} else {
+		exact.Add(exact, half)
+	}
+
+	// Quo truncates toward zero, which completes rounding half away from it.
+	rounded := new(big.Int).Quo(exact.Num(), exact.Denom())
+	if !rounded.IsInt64() {
+		return 0, false
+	}
+
+	return rounded.Int64(), true
 }
 
 // execMethodBigInt handles the execution of .bigint(). value must be a
@@ -285,15 +323,13 @@ func (exec *Executor) execMethodBigInt(
 		var err error
 		bigInt, err = val.Int64()
 		if err != nil {
-			var f float64
-			f, err = val.Float64()
-			if err != nil || f >= math.MaxInt64 || f < math.MinInt64 || math.IsInf(f, 0) || math.IsNaN(f) {
+			var ok bool
+			if bigInt, ok = roundJSONNumber(val); !ok {
 				return exec.returnVerboseError(fmt.Errorf(
 					`%w: argument "%v" of jsonpath item method %v is invalid for type %v`,
 					ErrVerbose, val, node.Name(), "bigint",
 				))
 			}
-			bigInt = int64(math.Round(f))
 		}
 	case string:
 		var err error
